@@ -151,7 +151,7 @@ Theorem spec_xml_str : forall ft scope fl a s, XStd scope ->
   is_qname_attr a = false ->
   spec_xml_value ft scope fl a (VStr s) = Some (content_value (VStr s)).
 Proof.
-  intros ft scope fl a s Hx Q. unfold spec_xml_value, xml_emit. norm_always. cbn [value_str]. rewrite Q. cbn [andb negb].
+  intros ft scope fl a s Hx Q. unfold spec_xml_value, xml_emit. norm_always. cbn [prov_str]. cbn [value_str]. rewrite Q. cbn [andb negb].
   match goal with |- context [if ?cnd then (Some "xsd:string", _) else _] => destruct cnd end;
     cbn [xout_attrs xout_text x_text x_type x_lang x_ref app].
   - change "xsd:string" with ("xsd:" ++ "string"). xml_typed scope Hx "string". reflexivity.
@@ -165,14 +165,13 @@ Proof.
 Qed.
 
 Ltac always_typed ft a :=
-  replace ((ft || true || is_tlv a) && true && true && true && true)%bool with true
-    by (destruct ft, (is_tlv a); reflexivity).
+  cond_true ft a.
 
 Theorem spec_xml_int : forall ft scope fl a z, XStd scope -> plain_attr a ->
   spec_xml_value ft scope fl a (VInt z) = Some (content_value (VInt z)).
 Proof.
-  intros ft scope fl a z Hx [Q [T L]]. unfold spec_xml_value, xml_emit. norm_always. cbn [value_str].
-  rewrite Q, L, (int_not_prov z). cbn [andb negb]. always_typed fl a.
+  intros ft scope fl a z Hx [Q [T L]]. unfold spec_xml_value, xml_emit. norm_always. cbn [prov_str]. cbn [value_str].
+  rewrite Q, L. cbn [andb negb]. cond_true fl a.
   cbn [xout_attrs xout_text x_text x_type x_lang x_ref app].
   change "xsd:int" with ("xsd:" ++ "int"). xml_typed scope Hx "int".
   rewrite parse_int_str_of_Z. reflexivity.
@@ -181,20 +180,19 @@ Qed.
 Theorem spec_xml_bool : forall ft scope fl a b, XStd scope -> plain_attr a ->
   spec_xml_value ft scope fl a (VBool b) = Some (content_value (VBool b)).
 Proof.
-  intros ft scope fl a b Hx [Q [T L]]. unfold spec_xml_value, xml_emit. norm_always. cbn [value_str].
-  rewrite Q, L. replace (starts_with "prov:" (py_bool_str b)) with false by (destruct b; reflexivity).
-  cbn [andb negb]. always_typed fl a.
+  intros ft scope fl a b Hx [Q [T L]]. unfold spec_xml_value, xml_emit. norm_always. cbn [prov_str]. cbn [value_str].
+  rewrite Q, L. cbn [andb negb]. cond_true fl a.
   cbn [xout_attrs xout_text x_text x_type x_lang x_ref app].
   change "xsd:boolean" with ("xsd:" ++ "boolean"). xml_typed scope Hx "boolean".
   destruct b; reflexivity.
 Qed.
 
 Theorem spec_xml_float : forall ft scope fl a r iv g, XStd scope -> plain_attr a ->
-  starts_with "prov:" r = false -> lookup r ft = Some (Some (r, iv, g)) ->
+  lookup r ft = Some (Some (r, iv, g)) ->
   spec_xml_value ft scope fl a (VFloat r iv g) = Some (content_value (VFloat r iv g)).
 Proof.
-  intros ft scope fl a r iv g Hx [Q [T L]] NP F. unfold spec_xml_value, xml_emit. norm_always. cbn [value_str].
-  rewrite Q, L, NP. cbn [andb negb]. always_typed fl a.
+  intros ft scope fl a r iv g Hx [Q [T L]] F. unfold spec_xml_value, xml_emit. norm_always. cbn [prov_str]. cbn [value_str].
+  rewrite Q, L. cbn [andb negb]. cond_true fl a.
   cbn [xout_attrs xout_text x_text x_type x_lang x_ref app].
   change "xsd:double" with ("xsd:" ++ "double"). xml_typed scope Hx "double".
   unfold parse_float. rewrite F. reflexivity.
@@ -203,18 +201,18 @@ Qed.
 Theorem spec_xml_time : forall ft scope fl a tm, XStd scope -> plain_attr a -> valid_dt tm = true ->
   spec_xml_value ft scope fl a (VTime tm) = Some (content_value (VTime tm)).
 Proof.
-  intros ft scope fl a tm Hx [Q [T L]] V. unfold spec_xml_value, xml_emit. norm_always. cbn [value_str].
-  rewrite Q, L, T, (iso_print_not_prov tm V). cbn [andb negb]. always_typed fl a.
+  intros ft scope fl a tm Hx [Q [T L]] V. unfold spec_xml_value, xml_emit. norm_always. cbn [prov_str]. cbn [value_str].
+  rewrite Q, L, T. cbn [andb negb]. cond_true fl a.
   cbn [xout_attrs xout_text x_text x_type x_lang x_ref app].
   change "xsd:dateTime" with ("xsd:" ++ "dateTime"). xml_typed scope Hx "dateTime".
   rewrite (iso_roundtrip tm V). reflexivity.
 Qed.
 
-Theorem spec_xml_id : forall ft scope fl a u, XStd scope -> plain_attr a -> starts_with "prov:" u = false ->
+Theorem spec_xml_id : forall ft scope fl a u, XStd scope -> plain_attr a ->
   spec_xml_value ft scope fl a (VId u) = Some (content_value (VId u)).
 Proof.
-  intros ft scope fl a u Hx [Q [T L]] NP. unfold spec_xml_value, xml_emit. norm_always. cbn [value_str].
-  rewrite Q, L, NP. cbn [andb negb]. always_typed fl a.
+  intros ft scope fl a u Hx [Q [T L]]. unfold spec_xml_value, xml_emit. norm_always. cbn [prov_str]. cbn [value_str].
+  rewrite Q, L. cbn [andb negb]. cond_true fl a.
   cbn [xout_attrs xout_text x_text x_type x_lang x_ref app].
   change "xsd:anyURI" with ("xsd:" ++ "anyURI"). xml_typed scope Hx "anyURI". reflexivity.
 Qed.
@@ -226,7 +224,7 @@ Theorem spec_xml_qn : forall ft scope fl a q, XStd scope -> is_qname_attr a = fa
   String.eqb (ns_uri (qn_ns q)) XmlSpec.xsd_ns = false ->
   spec_xml_value ft scope fl a (VQn q) = Some (content_value (VQn q)).
 Proof.
-  intros ft scope fl a q Hx Q NE C B NX. unfold spec_xml_value, xml_emit. norm_always. rewrite Q.
+  intros ft scope fl a q Hx Q NE C B NX. unfold spec_xml_value, xml_emit. norm_always. cbn [prov_str]. rewrite Q.
   assert (E : qn_str q = ns_prefix (qn_ns q) ++ String colon (qn_local q)).
   { unfold qn_str. destruct (ns_prefix (qn_ns q)); [contradiction | reflexivity]. }
   cbn [andb negb]. rewrite (andb_false_r (fl || false || is_tlv a)). cbn [andb].
@@ -241,7 +239,7 @@ Theorem spec_xml_lang : forall ft scope fl a lex c l, is_qname_attr a = false ->
   spec_xml_value ft scope fl a (VLit lex (Some (prov_qn "InternationalizedString")) (Some (String c l)))
   = Some (content_value (VLit lex (Some (prov_qn "InternationalizedString")) (Some (String c l)))).
 Proof.
-  intros ft scope fl a lex c l Q. unfold spec_xml_value, xml_emit. norm_always. rewrite Q.
+  intros ft scope fl a lex c l Q. unfold spec_xml_value, xml_emit. norm_always. cbn [prov_str]. rewrite Q.
   replace (intl_string (prov_qn "InternationalizedString")) with true by reflexivity.
   cbn [andb negb].
   match goal with |- context [if ?cnd then _ else (None, lex)] => destruct cnd end;
@@ -266,7 +264,7 @@ Proof.
   { unfold qn_str. destruct (ns_prefix (qn_ns q)); [contradiction | reflexivity]. }
   assert (N : String.eqb (qn_str q) "" = false).
   { rewrite E. destruct (ns_prefix (qn_ns q)); [contradiction | reflexivity]. }
-  unfold child_of, xml_emit. norm_always. rewrite Q, N. cbn [andb negb]. rewrite !andb_false_r. cbn [andb].
+  unfold child_of, xml_emit. norm_always. cbn [prov_str]. rewrite Q, N. cbn [andb negb]. rewrite !andb_false_r. cbn [andb].
   cbn [xout_attrs xout_text x_text x_type x_lang x_ref app read_child prov_qn qn_ns qn_local prov_ns ns_uri].
   change (String.eqb prov_uri spec_prov_uri) with true. cbn [andb]. rewrite F, NT.
   rewrite ?N. cbn [negb xout_attrs x_text x_type x_lang x_ref app].
@@ -283,7 +281,7 @@ Theorem spec_xml_formal_time : forall ft scope fl l formals tm,
   = Some (L [A (spec_prov_uri ++ l); content_value (VTime tm)]).
 Proof.
   intros ft scope fl l formals tm Q T F TA V.
-  unfold child_of, xml_emit. norm_always. cbn [value_str]. rewrite Q, T, (iso_print_not_prov tm V). cbn [andb negb].
+  unfold child_of, xml_emit. norm_always. cbn [prov_str]. cbn [value_str]. rewrite Q, T. cbn [andb negb].
   match goal with |- context [if ?cnd then (None, iso_print tm) else (None, iso_print tm)] => destruct cnd end;
     cbn [xout_attrs xout_text x_text x_type x_lang x_ref app read_child prov_qn qn_ns qn_local prov_ns ns_uri];
     change (String.eqb prov_uri spec_prov_uri) with true; cbn [andb]; rewrite F, TA, (iso_roundtrip tm V); reflexivity.
